@@ -429,6 +429,12 @@ pub fn generate_sel(_seed: u64, tier: &str, sink: &mut Sink, tunnels_only: bool)
                                     continue;
                                 }
                                 rows.push((ci, name_ok, host_kind, aic, aih, root_added, mode, place));
+                                // the same row once more with the flags set on the request OVER a session that has
+                                // both flags on: what is set on a request — `false` included — is what that request
+                                // works with (seed C14-seed12: a request-level `false` silently dropped)
+                                if place == "request" && host_kind == "dns" && (mode == "direct" || (mode == "connect" && !aic)) && !SIBLINGS_ONLY.with(|s| s.get()) {
+                                    rows.push((ci, name_ok, host_kind, aic, aih, root_added, mode, "override"));
+                                }
                             }
                         }
                     }
@@ -547,6 +553,15 @@ pub fn generate_sel(_seed: u64, tier: &str, sink: &mut Sink, tunnels_only: bool)
                     sess.add_root_certificate(if *chain == "pinned" { pinned_root() } else { root() });
                 }
                 sess.get(&url).send()
+            }
+            "override" => {
+                sess.danger_accept_invalid_certs(true);
+                sess.danger_accept_invalid_hostnames(true);
+                let mut rb = sess.get(&url).danger_accept_invalid_certs(aic).danger_accept_invalid_hostnames(aih);
+                if root_added {
+                    rb = rb.add_root_certificate(if *chain == "pinned" { pinned_root() } else { root() });
+                }
+                rb.send()
             }
             "request" => {
                 let mut rb = sess.get(&url).danger_accept_invalid_certs(aic).danger_accept_invalid_hostnames(aih);
